@@ -427,3 +427,7 @@ _add(
     "C20",
     m("collapse-onto-prov-false-twin", S, "        if pending_job and job.recording_provenance() and not pending_job.recording_provenance():\n            # A job that does not record provenance never gets a call node, so it has no\n            # call_hash that a provenance-recording duplicate could share.\n            return None\n", "", "C20.8"),
 )
+_add(
+    "C20",
+    m("ultimate-call-hash-before-load", D, "                result, is_cached = self.get_call_cache(cast(str, call_node2.call_hash))\n                if is_cached:", "                call_hash = cast(str, call_node2.call_hash)\n                result, is_cached = self.get_call_cache(call_hash)\n                if is_cached:", "C20.9"),
+)
